@@ -105,6 +105,21 @@ def families(tier, rng):
             s1, s2, s3 = (rng.choice(SLOTS) for _ in range(3))
             out.append((s1.replace("□", s2.replace("□", s3.replace("□", rng.choice(LEAVES)))), rng.choice(["", "W"]),
                         rng.choice(inp)))
+    # C  every element of the machine's core on every combination of a fixed argument set (numbers of both signs,
+    #    zero, empty / flat / nested / constant lists, a lazy range): the conformance of each element rule
+    from . import gen_chars
+    a1 = ["0 ", "4 ", "7 ", "3N", "9 ", "⟨⟩", "⟨3|1|2⟩", "⟨⟨1|2⟩|3⟩", "⟨0|0⟩", "⟨2|2⟩", "5ɾ", "⟨4⟩", "⟨1N|0|6⟩"]
+    a2 = ["0 ", "3 ", "5N", "2 ", "⟨1|2|3⟩", "⟨⟩", "⟨⟨1⟩|2⟩", "⟨3|3N⟩"]
+    for name, (ch, ar) in gen_chars.ELEMS.items():
+        if name in ("input", "map", "filter", "sortby", "reduce", "call"):
+            continue
+        if ar <= 1:
+            for x in a1:
+                out.append(("1 2 " + x + ch, "W", inp[1]))
+        else:
+            for x in a2:
+                for y in a2:
+                    out.append(("8 " + x + y + ch, "W", inp[1]))
     for st in MOD_STACKS:
         for o in MOD_OPERANDS:
             for m in gen.MONADIC_MODS:
